@@ -9,6 +9,7 @@ import PurlModel.Ops
 import PurlModel.RustOrd
 import PurlModel.Serde
 import PurlModel.JsonText
+import PurlModel.BinSearch
 import PurlModel.Generated.UnicodeData
 open Purl Purl.Generated
 
@@ -763,6 +764,16 @@ def opSerde (rest : List String) : M String := do
     return s!"json={hS (jsonQuote t.serdeName)} back=T rec1=variant:{hS t.serdeName} rec0=variant:{hS t.serdeName}"
   | x => throw s!"BADREQ bad serde op {x}"
 
+/-! ### std's binary search on an arbitrary slice of strings -/
+
+def opBsearch (probe keys : String) : M String := do
+  let p ← unh probe
+  let ks ← if keys == "~" then pure [] else (keys.splitOn ",").mapM unh
+  match bsearchStrs p ks with
+  | .ok (true, i) => return s!"ok:{i}"
+  | .ok (false, i) => return s!"err:{i}"
+  | .error _ => return "PANIC"
+
 /-! ### dispatch -/
 
 def cmpTyS (a b : Str) : Ordering := cmpStr a b
@@ -809,6 +820,7 @@ def dispatch (line : String) : M String := do
     | "P" => opCmp3 ioP mkPkg cmpTyP s1 s2 s3
     | _ => return "NA"
   | ["ptype", s] => return opPtype (← unh s)
+  | ["bsearch", probe, keys] => opBsearch probe keys
   | ["comb", ident, s] => opComb ident (← unh s)
   | ["combp", s] => opCombp (← unh s)
   | "shape" :: bits :: rest => opShape bits rest
